@@ -229,7 +229,7 @@ def check(case, results):
                     viol.append(dict(ctx, oracle="C12.object-matches-description", op=oi,
                                      detail="the state of the %s built from the description is %s molecules, the description says %s"
                                             % (op[2], got[:6], want[:6])))
-                elif list(psys["chemostats"]) != [int(c) for c in mm.chem.ravel()]:
+                elif [int(bool(c)) for c in psys["chemostats"]] != [int(c) for c in mm.chem.ravel()]:
                     viol.append(dict(ctx, oracle="C12.object-matches-description", op=oi,
                                      detail="the chemostat map of the %s built from the description differs from it" % op[2]))
             if op[2] == "script":
